@@ -991,7 +991,7 @@ Proof.
   - rewrite (fgt_nan_l (c_peer cfg) fone H). destruct (fgt (c_ref cfg) fone); reflexivity.
 Qed.
 
-(* the only non-finite setting that is admitted is a peer factor +Inf (with a finite reference factor):
+(* the only non-finite setting that is accepted is a peer factor +Inf (with a finite reference factor):
    the peer cap is then +Inf - the peer side is not bounded, the reference side is *)
 Lemma pinf_peer_cap cfg D : inadmissible cfg = false -> is_finite (c_peer cfg) = false -> in_i64 D -> 0 < D ->
   c_peer cfg = B754_infinity false /\ cap (c_peer cfg) D = B754_infinity false /\ is_finite (c_ref cfg) = true.
